@@ -371,6 +371,41 @@ func zzC15_clone() {
 		}
 	}
 	symCover("cloned")
+	// reset-to from a list given in arbitrary order (as SetupGet & co. receive their options): the result is sorted
+	// ascending by option number, options with equal numbers keep the order in which they were given
+	ids := []OptionID{URIQuery, ContentFormat, ETag, URIQuery}
+	perm := [][]int{{0, 1, 2, 3}, {3, 2, 1, 0}, {1, 0, 3, 2}, {2, 3, 0, 1}}[symChoose("input-order", 4)]
+	var in Options
+	for _, k := range perm {
+		in = append(in, Option{ID: ids[k], Value: []byte{byte(0x60 + k)}})
+	}
+	buf := make([]byte, 16)
+	out, _, rerr2 := make(Options, 0, 4).ResetOptionsTo(buf, in)
+	symAssert(rerr2 == nil && len(out) == 4, "reset-to accepts a list in any order")
+	if rerr2 == nil && len(out) == 4 {
+		sorted := true
+		for i := 1; i < 4; i++ {
+			if out[i-1].ID > out[i].ID {
+				sorted = false
+			}
+		}
+		symAssert(sorted, "after reset-to the list is ascending by option number")
+		// the two Uri-Query values keep their given relative order
+		var q []byte
+		for _, o := range out {
+			if o.ID == URIQuery {
+				q = append(q, o.Value[0])
+			}
+		}
+		var wantq []byte
+		for _, k := range perm {
+			if ids[k] == URIQuery {
+				wantq = append(wantq, byte(0x60+k))
+			}
+		}
+		symAssert(bytes.Equal(q, wantq), "insertion order is kept among repeated options")
+		symAssert(out.HasOption(ContentFormat) && out.HasOption(ETag), "and the query operations find every option")
+	}
 }
 
 func zzC15_selftest() {
